@@ -26,7 +26,7 @@ def est_size(kls, vls, pfx):
 def wq(name, kls, lcps, vls, ri=1, bs=40, pfx=0, compw=0, levelw=None, perm=None, frag=0, pool=0, deliver=3, entry="h_write",
        extra=None, special=None, base=0x40, timeout=900, mem_gb=10, witness=True, us=None, sample=None):
     n = len(kls)
-    assert est_size(kls, vls, pfx) < 250, "shape too large for the ghost file"
+    big = est_size(kls, vls, pfx) >= 250 or max(list(vls) + list(kls) + [0]) > 40
     klmax = max([4] + list(kls))
     vlmax = max([4] + list(vls))
     d = {"N": n, "KLS": shapes.clist(kls), "VLS": shapes.clist(vls), "KLMAX": klmax, "VLMAX": vlmax,
@@ -39,9 +39,15 @@ def wq(name, kls, lcps, vls, ri=1, bs=40, pfx=0, compw=0, levelw=None, perm=None
     if perm is not None:
         d["NADDS"] = len(perm)
         d["PERM"] = shapes.clist(perm)
+    if big:
+        # long keys/values (>= 128-byte lengths need two-byte varints): larger ghost file and write window
+        d["GMAX"] = est_size(kls, vls, pfx) + 64
+        d["WMAX"] = 3 * 5 + max(kls + [0]) + max(vls + [0]) + sum(4 for _ in kls) + 48
     if extra:
         d.update(extra)
     u = dict(US)
+    if big:
+        u["ubuf_reserve.0"] = 6
     if us:
         u.update(us)
     smp = {"key_lens": kls, "common_prefix_lens": lcps, "val_lens": vls, "restart_interval": ri, "block_size": bs,
@@ -49,7 +55,7 @@ def wq(name, kls, lcps, vls, ri=1, bs=40, pfx=0, compw=0, levelw=None, perm=None
            "content": "key bytes symbolic except the one byte per adjacent pair that decides their order; all value bytes symbolic; CRC values symbolic"}
     if sample:
         smp.update(sample)
-    return Query(name, harness="c_writer.c", entry=entry, defines=d, units=UNITS, unwind=66, unwindset=u,
+    return Query(name, harness="c_writer.c", entry=entry, defines=d, units=UNITS, unwind=(d.get("WMAX", 64) + 2), unwindset=u,
                  flags=["--max-field-sensitivity-array-size", "1024"], object_bits=12, timeout=timeout, mem_gb=mem_gb,
                  sample=smp, leak_check=(entry == "h_write"), witness=witness)
 
@@ -91,6 +97,13 @@ def standard_shapes(tier, prefix):
         for lv in ((None, 3) if not quick else (None,)):
             out.append(("%s_t4_c%d_l%s" % (prefix, comp, lv), dict(kls=[2, 1, 2, 3], lcps=[0, 0, 1, 1], vls=[1, 0, 1, 2], ri=2, bs=36, compw=comp, levelw=lv)))
     out.append(("%s_t4_c2_lm7" % prefix, dict(kls=[2, 1, 2, 3], lcps=[0, 0, 1, 1], vls=[1, 0, 1, 2], ri=2, bs=36, compw=2, levelw=-7)))
+    # lengths at the one-byte / two-byte varint boundary (127, 128, 129) next to small entries
+    for vl in (127, 128, 129):
+        out.append(("%s_len%d_val" % (prefix, vl), dict(kls=[1, 1], lcps=[0, 0], vls=[vl, 1], ri=2, bs=400)))
+    out.append(("%s_len128_emptykey" % prefix, dict(kls=[0, 1], lcps=[0, 0], vls=[128, 0], ri=1, bs=400)))
+    # keys sharing a prefix of 127 / 128 / 129 bytes (the shared-length varint turns two bytes long)
+    for sh in (() if prefix != "wf" else (128,) if tier == "quick" else (127, 128, 129)):     # C09 only: ~2-4 min each
+        out.append(("%s_shared%d" % (prefix, sh), dict(kls=[sh + 1, sh + 2], lcps=[0, sh], vls=[1, 1], ri=2, bs=900)))
     # bytes >= 0x80 and 0xff / 0x00 at the deciding positions
     out.append(("%s_t4_hi" % prefix, dict(kls=[2, 1, 2, 3], lcps=[0, 0, 1, 1], vls=[1, 0, 1, 2], ri=2, bs=36, base=0xf6)))
     out.append(("%s_t3_ff" % prefix, dict(kls=[1, 2, 2], lcps=[0, 1, 1], vls=[1, 1, 1], ri=2, bs=30, special={(1, 1): 0xfe, (2, 1): 0xff})))
